@@ -1,7 +1,419 @@
-// correspondence + search binary for property C17 (stub)
+// C17 — the real Table::save / Table::load of Profile (blueprint), Metric and Lookup (isomorphism),
+// run inside a per-run scratch directory, vs the Lean byte-level model (`RP.Pgcopy`), plus the
+// search oracle: an independent, length-driven reader of the PostgreSQL binary COPY format in the
+// style of `Writer::stream` that checks signature, field counts, field lengths against the declared
+// column types, the trailer, the *meaning* of every field (read in the order of the COPY column
+// list) and the bit-for-bit equality of the reloaded table.
+#[path = "../c17_shared.rs"]
+mod shared;
+use robopoker::cards::isomorphism::Isomorphism;
+use robopoker::cards::street::Street;
+use robopoker::clustering::abstraction::Abstraction;
+use robopoker::clustering::lookup::Lookup;
+use robopoker::clustering::metric::Metric;
+use robopoker::mccfr::bucket::Bucket;
+use robopoker::mccfr::edge::Edge;
+use robopoker::mccfr::profile::Profile;
+use robopoker::save::upload::Table;
+use rpharness::*;
+use shared::*;
+use std::collections::BTreeMap;
+
+const HEX_LIMIT: usize = 700;
+const ROWS_LIMIT: usize = 8;
+
+/// the answer line: what the file is and what came back
+fn answer(file: &Option<(String, Vec<u8>)>, reloaded: &Option<Vec<Vec<u64>>>) -> String {
+    let mut s = String::new();
+    match file {
+        None => return "panic".into(),
+        Some((_, bytes)) => {
+            s.push_str(&format!("len={} fnv={:016x}", bytes.len(), fnv(bytes)));
+            if bytes.len() <= HEX_LIMIT {
+                s.push_str(&format!(" hex={}", hex(bytes)));
+            }
+        }
+    }
+    match reloaded {
+        None => s.push_str(" load=panic"),
+        Some(rows) => {
+            let rows = sorted(rows.clone());
+            s.push_str(&format!(" load=ok n={} cfnv={:016x}", rows.len(), fnv_rows(&rows)));
+            if rows.len() <= ROWS_LIMIT {
+                s.push_str(&format!(" rows={}", if rows.is_empty() { "-".to_string() } else { flat(&rows).replace(' ', ",") }));
+            }
+        }
+    }
+    s
+}
+
+/// the search oracle on one saved file. `roles` names the components of `orig` rows.
+fn oracle(
+    run: &mut Run, table: &str, op: &str, decl: &(Vec<String>, Vec<String>, Vec<(String, String)>), roles: &[&str],
+    orig: &[Vec<u64>], bytes: &[u8], reloaded: &Option<Vec<Vec<u64>>>, typed_equal: Option<bool>,
+) {
+    let (cols, types, _) = decl;
+    let short = |s: &str| if s.len() > 300 { format!("{}…", &s[..300]) } else { s.to_string() };
+    let op = short(op);
+    run.spec_checked += 1;
+    match pg_read(bytes) {
+        Err(e) => run.fail("file-not-wellformed-copy-stream", &op, "signature, rows, trailer", &e),
+        Ok(rows) => {
+            if rows.len() != orig.len() {
+                run.fail("file-row-count", &op, &format!("{} rows", orig.len()), &format!("{} rows", rows.len()));
+            }
+            for (j, row) in rows.iter().enumerate() {
+                if row.len() != cols.len() || row.len() != types.len() {
+                    run.fail("row-field-count", &op, &format!("{} fields (COPY list) / {} (columns())", cols.len(), types.len()), &format!("row {j}: {} fields", row.len()));
+                    break;
+                }
+                let mut bad = false;
+                for (i, f) in row.iter().enumerate() {
+                    if type_width(&types[i]) != Some(f.len()) {
+                        run.fail("field-length-vs-declared-type", &op, &format!("column {} declared {}", cols[i], types[i]), &format!("row {j}: length {}", f.len()));
+                        bad = true;
+                        break;
+                    }
+                    let want = roles.iter().position(|r| *r == cols[i]).and_then(|p| orig.get(j).map(|o| o[p]));
+                    match want {
+                        None => {
+                            if orig.get(j).is_some() {
+                                run.fail("column-name-unknown", &op, "a column of the table's key or value", &cols[i]);
+                                bad = true;
+                                break;
+                            }
+                        }
+                        Some(w) => {
+                            if w != f.bits() {
+                                run.fail("column-does-not-carry-its-value", &op, &format!("row {j} column {} = {:#x}", cols[i], w), &format!("{:#x}", f.bits()));
+                                bad = true;
+                                break;
+                            }
+                        }
+                    }
+                }
+                if bad {
+                    break;
+                }
+            }
+        }
+    }
+    run.spec_checked += 1;
+    match reloaded {
+        None => run.fail("load-of-saved-file-panics", &op, "the saved table", "panic"),
+        Some(rows) => {
+            let a = sorted(rows.clone());
+            let b = sorted(orig.to_vec());
+            if a != b {
+                let k = a.iter().zip(b.iter()).position(|(x, y)| x != y).unwrap_or(a.len().min(b.len()));
+                run.fail("reload-differs", &op, &format!("{} rows; first difference at sorted row {k}: {:?}", b.len(), b.get(k)), &format!("{} rows; {:?}", a.len(), a.get(k)));
+            }
+            if typed_equal == Some(false) {
+                run.fail("reload-differs-typed", &op, "same keys and bit-identical values", "typed comparison differs");
+            }
+        }
+    }
+    let _ = table;
+}
+
+/// static part: COPY list vs columns() vs CREATE TABLE
+fn declared_consistent(run: &mut Run, table: &str, decl: &(Vec<String>, Vec<String>, Vec<(String, String)>), roles: &[&str]) {
+    let (cols, types, creates) = decl;
+    run.spec_checked += 1;
+    if cols.len() != types.len() {
+        run.fail("copy-list-vs-columns-length", table, &format!("{} types", cols.len()), &format!("{}", types.len()));
+    }
+    let mut seen = std::collections::BTreeSet::new();
+    for (i, c) in cols.iter().enumerate() {
+        if !seen.insert(c.clone()) {
+            run.fail("copy-list-duplicate-column", table, "distinct columns", c);
+        }
+        if !roles.contains(&c.as_str()) {
+            run.fail("column-name-unknown", table, &format!("one of {:?}", roles), c);
+        }
+        match creates.iter().find(|(n, _)| n == c) {
+            None => run.fail("copy-column-not-in-create-table", table, c, &format!("{:?}", creates)),
+            Some((_, ty)) => {
+                if types.get(i).and_then(|t| type_width(t)) != type_width(ty) || type_width(ty).is_none() {
+                    run.fail("create-table-type-vs-columns", table, &format!("{c}: {:?}", types.get(i)), ty);
+                }
+            }
+        }
+    }
+    for r in roles {
+        if !cols.iter().any(|c| c == r) {
+            run.fail("value-not-in-copy-list", table, r, &format!("{:?}", cols));
+        }
+    }
+}
+
+fn size_class(n: usize) -> &'static str {
+    match n {
+        0 => "rows=0",
+        1 => "rows=1",
+        2..=9 => "rows=2-9",
+        10..=99 => "rows=10-99",
+        100..=999 => "rows=100-999",
+        _ => "rows>=1000",
+    }
+}
+
+struct Ctx {
+    run: Run,
+    scr: Scratch,
+}
+
+fn case_profile(c: &mut Ctx, rows: &[(Bucket, Edge, u32, u32)], decl: &(Vec<String>, Vec<String>, Vec<(String, String)>)) {
+    const ROLES: [&str; 6] = ["past", "present", "future", "edge", "regret", "policy"];
+    let p = build_profile(rows);
+    let orig = profile_rows(&p);
+    let typed = profile_typed(&p);
+    c.scr.clean();
+    c.run.evaluations += 1;
+    let saved = catch(std::panic::AssertUnwindSafe(|| p.save()));
+    let files = c.scr.files();
+    let op = format!("save blueprint {} {}", orig.len(), flat(&orig));
+    let file = if saved.is_some() && files.len() == 1 && files[0].0 == "blueprint" { Some(files[0].clone()) } else { None };
+    let loaded = if file.is_some() { catch(|| profile_load()) } else { None };
+    let reloaded = loaded.as_ref().map(|l| profile_rows(l));
+    c.run.line(&op, &answer(&file, &reloaded));
+    c.run.count(&format!("blueprint {}", size_class(orig.len())));
+    for r in &typed {
+        let k = match r.1 {
+            Edge::Draw => "draw",
+            Edge::Fold => "fold",
+            Edge::Check => "check",
+            Edge::Call => "call",
+            Edge::Shove => "shove",
+            Edge::Raise(_) => "raise",
+        };
+        c.run.count(&format!("blueprint edge={k}"));
+        c.run.count(&format!("blueprint street={}", r.0 .1.street()));
+        for v in [r.2, r.3] {
+            let f = f32::from_bits(v);
+            let cl = if f.is_nan() { "nan" } else if f.is_infinite() { "inf" } else if f == 0.0 { "zero" } else if f.is_sign_negative() { "negative" } else if !f.is_normal() { "subnormal" } else { "positive" };
+            c.run.count(&format!("float {cl}"));
+        }
+    }
+    if !orig.is_empty() {
+        c.run.distinct(&("blueprint", &orig));
+    }
+    match &file {
+        None => c.run.fail("save-fails", &op[..op.len().min(300)], "file pgcopy/blueprint", &format!("panic={} files={:?}", saved.is_none(), files.iter().map(|f| &f.0).collect::<Vec<_>>())),
+        Some((_, bytes)) => {
+            let teq = loaded.as_ref().map(|l| profile_typed(l) == typed);
+            oracle(&mut c.run, "blueprint", &op, decl, &ROLES, &orig, bytes, &reloaded, teq);
+        }
+    }
+}
+
+fn case_metric(c: &mut Ctx, rows: &[(u64, u32)], decl: &(Vec<String>, Vec<String>, Vec<(String, String)>)) {
+    const ROLES: [&str; 2] = ["xor", "dx"];
+    let m = build_metric(rows);
+    let orig = metric_rows(&m);
+    let typed = metric_typed(&m);
+    c.scr.clean();
+    c.run.evaluations += 1;
+    let saved = catch(std::panic::AssertUnwindSafe(|| m.save()));
+    let files = c.scr.files();
+    let op = format!("save metric {} {}", orig.len(), flat(&orig));
+    let street = files.get(0).and_then(|f| f.0.strip_prefix("metric.")).and_then(street_of_suffix);
+    let file = if saved.is_some() && files.len() == 1 && street.is_some() { Some(files[0].clone()) } else { None };
+    let loaded = match (&file, street) {
+        (Some(_), Some(s)) => catch(move || metric_load(s)),
+        _ => None,
+    };
+    let reloaded = loaded.as_ref().map(|l| metric_rows(l));
+    c.run.line(&op, &answer(&file, &reloaded));
+    c.run.count(&format!("metric {}", size_class(orig.len())));
+    if let Some(s) = street {
+        c.run.count(&format!("metric file=metric.{s}"));
+    }
+    if !orig.is_empty() {
+        c.run.distinct(&("metric", &orig));
+    }
+    match &file {
+        None => c.run.fail("save-fails", &op[..op.len().min(300)], "one file pgcopy/metric.<street>", &format!("panic={} files={:?}", saved.is_none(), files.iter().map(|f| &f.0).collect::<Vec<_>>())),
+        Some((_, bytes)) => {
+            let teq = loaded.as_ref().map(|l| metric_typed(l) == typed);
+            oracle(&mut c.run, "metric", &op, decl, &ROLES, &orig, bytes, &reloaded, teq);
+        }
+    }
+}
+
+fn case_lookup(c: &mut Ctx, map: &BTreeMap<Isomorphism, Abstraction>, decl: &(Vec<String>, Vec<String>, Vec<(String, String)>)) {
+    const ROLES: [&str; 2] = ["obs", "abs"];
+    let orig = lookup_rows(map);
+    let l = Lookup::from(map.clone());
+    c.scr.clean();
+    c.run.evaluations += 1;
+    let saved = catch(std::panic::AssertUnwindSafe(|| l.save()));
+    let files = c.scr.files();
+    let op = format!("save lookup {} {}", orig.len(), flat(&orig));
+    let street = files.get(0).and_then(|f| f.0.strip_prefix("isomorphism.")).and_then(street_of_suffix);
+    let file = if saved.is_some() && files.len() == 1 && street.is_some() { Some(files[0].clone()) } else { None };
+    let loaded = match (&file, street) {
+        (Some(_), Some(s)) => catch(move || BTreeMap::from(lookup_load(s))),
+        _ => None,
+    };
+    let reloaded = loaded.as_ref().map(|l| lookup_rows(l));
+    c.run.line(&op, &answer(&file, &reloaded));
+    c.run.count(&format!("lookup {}", size_class(orig.len())));
+    if let Some(s) = street {
+        c.run.count(&format!("lookup file=isomorphism.{s}"));
+        let want = map.keys().next().map(|k| k.0.street());
+        if want != Some(s) {
+            c.run.fail("lookup-file-street", &op[..op.len().min(300)], &format!("{:?}", want.map(|s| s.to_string())), &s.to_string());
+        }
+    }
+    if !orig.is_empty() {
+        c.run.distinct(&("lookup", &orig));
+    }
+    match &file {
+        None => {
+            if map.is_empty() {
+                // Lookup::save derives the file name from the first key: an empty lookup cannot be
+                // written at all (it panics before touching the disk); nothing is lost or misread.
+                c.run.count("lookup empty: save panics (no file written)");
+                if !files.is_empty() {
+                    c.run.fail("save-fails-but-writes", &op, "no file", &format!("{:?}", files.iter().map(|f| &f.0).collect::<Vec<_>>()));
+                }
+            } else {
+                c.run.fail("save-fails", &op[..op.len().min(300)], "one file pgcopy/isomorphism.<street>", &format!("panic={} files={:?}", saved.is_none(), files.iter().map(|f| &f.0).collect::<Vec<_>>()));
+            }
+        }
+        Some((_, bytes)) => {
+            let teq = loaded.as_ref().map(|l| l == map);
+            oracle(&mut c.run, "lookup", &op, decl, &ROLES, &orig, bytes, &reloaded, teq);
+        }
+    }
+}
+
 fn main() {
-    let a = rpharness::args();
-    let mut run = rpharness::Run::new(&a.out);
-    run.rule = "stub".into();
-    run.finish();
+    let a = args();
+    let out = std::fs::canonicalize(&a.out).unwrap_or_else(|_| {
+        std::fs::create_dir_all(&a.out).expect("out dir");
+        std::fs::canonicalize(&a.out).expect("out dir")
+    });
+    let out = out.to_string_lossy().into_owned();
+    let mut rng = Rng::new(a.seed);
+    let run = Run::new(&out);
+    quiet_panics();
+    let scr = Scratch::new(&out);
+    let mut c = Ctx { run, scr };
+    let deep = a.thorough();
+    let nrand = if deep { 3000 } else { 300 };
+    let big = if deep { 40000 } else { 4000 };
+    c.run.rule = format!(
+        "real save()+load() in a scratch directory for blueprint/metric/isomorphism tables: empty, one row, every edge kind x every street x every special float pattern (±0, ±inf, quiet/signalling NaN payloads, MAX, MIN_POSITIVE, subnormals, REGRET_MIN), {nrand} random tables of 0..60 rows per kind, tables of thousands of rows (blueprint {big} rows; metric 8128/10296/14196 rows = the flop/turn/preflop file names; lookup per street), keys with the sign bit set; the file bytes (hex up to {HEX_LIMIT} bytes, else length+FNV-1a) and the reloaded content are compared with the Lean model; the oracle is an independent length-driven COPY reader; non-trivial = at least one row; distinct by table content");
+
+    let dp = declared::<Profile>();
+    let dm = declared::<Metric>();
+    let dl = declared::<Lookup>();
+    declared_consistent(&mut c.run, "blueprint", &dp, &["past", "present", "future", "edge", "regret", "policy"]);
+    declared_consistent(&mut c.run, "metric", &dm, &["xor", "dx"]);
+    declared_consistent(&mut c.run, "isomorphism", &dl, &["obs", "abs"]);
+    c.run.notes.push(format!("declared blueprint: COPY {:?} columns() {:?}", dp.0, dp.1));
+    c.run.notes.push(format!("declared metric: COPY {:?} columns() {:?}", dm.0, dm.1));
+    c.run.notes.push(format!("declared isomorphism: COPY {:?} columns() {:?}", dl.0, dl.1));
+
+    // ---------------- blueprint
+    case_profile(&mut c, &[], &dp);
+    // one row per edge kind, per street, and one per special float (regret and policy swapped roles too)
+    for e in all_edges() {
+        for s in STREETS {
+            let b = Bucket::from((any_path(&mut rng), Abstraction::from((s, rng.below(100) as usize)), any_path(&mut rng)));
+            case_profile(&mut c, &[(b, e, any_f32(&mut rng), any_f32(&mut rng))], &dp);
+        }
+    }
+    for (i, f) in SPECIAL_F32.iter().enumerate() {
+        let b = any_bucket(&mut rng);
+        let g = SPECIAL_F32[(i + 7) % SPECIAL_F32.len()];
+        case_profile(&mut c, &[(b, any_edge(&mut rng), *f, g)], &dp);
+    }
+    // all edge kinds in one bucket, all special floats
+    {
+        let b = any_bucket(&mut rng);
+        let rows: Vec<_> = all_edges().into_iter().enumerate().map(|(i, e)| (b, e, SPECIAL_F32[i % 22], SPECIAL_F32[(i * 5 + 3) % 22])).collect();
+        case_profile(&mut c, &rows, &dp);
+    }
+    // same bucket/edge set twice: the later value wins in memory; the file has it once
+    {
+        let b = any_bucket(&mut rng);
+        case_profile(&mut c, &[(b, Edge::Call, 1, 2), (b, Edge::Call, 3, 4), (b, Edge::Fold, 5, 6)], &dp);
+    }
+    for _ in 0..nrand {
+        let top = if rng.chance(1, 10) { 60 } else { 12 };
+        let n = rng.below(top);
+        let nb = 1 + rng.below(n.max(1));
+        let buckets: Vec<Bucket> = (0..nb).map(|_| any_bucket(&mut rng)).collect();
+        let rows: Vec<_> = (0..n).map(|_| (buckets[rng.below(nb) as usize], any_edge(&mut rng), any_f32(&mut rng), any_f32(&mut rng))).collect();
+        case_profile(&mut c, &rows, &dp);
+    }
+    {
+        let mut rows = vec![];
+        while rows.len() < big {
+            let b = any_bucket(&mut rng);
+            for _ in 0..1 + rng.below(5) {
+                rows.push((b, any_edge(&mut rng), any_f32(&mut rng), any_f32(&mut rng)));
+            }
+        }
+        case_profile(&mut c, &rows, &dp);
+    }
+
+    // ---------------- metric
+    case_metric(&mut c, &[], &dm);
+    for f in SPECIAL_F32.iter() {
+        case_metric(&mut c, &[(rng.next(), *f)], &dm);
+    }
+    case_metric(&mut c, &[(0, 0), (u64::MAX, 0xffff_ffff), (1 << 63, 0x8000_0000), ((1 << 63) - 1, 0x7f80_0000)], &dm);
+    for _ in 0..nrand {
+        let top = if rng.chance(1, 10) { 60 } else { 12 };
+        let n = rng.below(top);
+        let rows: Vec<_> = (0..n).map(|_| (if rng.chance(1, 5) { rng.below(8) } else { rng.next() }, any_f32(&mut rng))).collect();
+        case_metric(&mut c, &rows, &dm);
+    }
+    // the entry counts that select the flop / turn / preflop file names, and one that does not
+    for n in [8128usize, 10296, 14196, 3000] {
+        let mut m = BTreeMap::new();
+        while m.len() < n {
+            m.insert(rng.next(), any_f32(&mut rng));
+        }
+        let rows: Vec<_> = m.into_iter().collect();
+        case_metric(&mut c, &rows, &dm);
+    }
+
+    // ---------------- lookup
+    case_lookup(&mut c, &BTreeMap::new(), &dl);
+    for s in STREETS {
+        for t in STREETS {
+            let mut m = BTreeMap::new();
+            m.insert(any_isomorphism(&mut rng, s), any_abstraction(&mut rng, Some(t)));
+            case_lookup(&mut c, &m, &dl);
+        }
+    }
+    for _ in 0..nrand {
+        let s = STREETS[rng.below(4) as usize];
+        let top = if rng.chance(1, 10) { 60 } else { 12 };
+        let n = 1 + rng.below(top);
+        let mut m = BTreeMap::new();
+        for _ in 0..n {
+            let t = if rng.chance(1, 2) { Some(s) } else { None };
+            m.insert(any_isomorphism(&mut rng, s), any_abstraction(&mut rng, t));
+        }
+        case_lookup(&mut c, &m, &dl);
+    }
+    for s in STREETS {
+        let n = if s == Street::Pref { 169 } else if deep { 30000 } else { 3000 };
+        let mut m = BTreeMap::new();
+        let mut tries = 0;
+        while m.len() < n && tries < 50 * n {
+            m.insert(any_isomorphism(&mut rng, s), any_abstraction(&mut rng, Some(s)));
+            tries += 1;
+        }
+        case_lookup(&mut c, &m, &dl);
+    }
+    c.run.exhaustive = false;
+    c.scr.clean();
+    c.run.finish();
 }
